@@ -367,6 +367,13 @@ PRELUDE = r'''
     (if (nil? t)
       (++ rt-refused)
       (do (rt-check v t)
+          # a buffer printed into itself (the target of buffer/format is the value): what is appended is the
+          # notation of what the buffer held when the call was made
+          (when (and (buffer? v) (< (length v) 2000))
+            (def b (buffer v))
+            (def n (length b))
+            (buffer/format b "%j" b)
+            (rt-check v (string/slice b n)))
           (array/push parts t)
           (array/push parts (seps (% i (length seps)))))))
   (string/join parts))
